@@ -390,9 +390,15 @@ func c15Run(r *vt.Run, c c15Case) (canon string) {
 func checkC15(r *vt.Run) {
 	var rc c15Case
 	if r.ReplayInto(&rc) {
-		c15Run(r, rc)
+		var ic c15iCase
+		if r.ReplayInto(&ic) && ic.OpA != "" {
+			c15iRun(r, ic)
+		} else {
+			c15Run(r, rc)
+		}
 		return
 	}
+	defer checkC15I(r)
 	depth := 6
 	if r.Thorough() {
 		depth = 12
